@@ -517,6 +517,17 @@ fn gen_string(rng: &mut Rng) -> String {
 }
 
 fn gen_unimpl(rng: &mut Rng) -> String {
+    if rng.chance(15) {
+        // sequences the state machine must swallow whole: a parameter byte after an intermediate, a private
+        // marker after digits, two intermediates - with a final byte that WOULD mean something (DECSTR `!p`, SGR, ED ...)
+        let body = match rng.below(4) {
+            0 => format!("{}{}{}", *rng.pick(&["", "1", "?1"]), *rng.pick(&['!', '$', ' ', '"']), *rng.pick(&["1", "0;", ":", "12"])),
+            1 => format!("{}{}{}", rng.range(0, 9), *rng.pick(&['?', '<', '=', '>']), *rng.pick(&["", "1", ";2"])),
+            2 => format!("{}{}{}", *rng.pick(&["", "2"]), *rng.pick(&['$', ' ']), *rng.pick(&['!', '#', '$'])),
+            _ => format!("{}!", *rng.pick(&["", "0", "1;2", "?"])),
+        };
+        return format!("{}{}{}", csi(rng), body, *rng.pick(&['p', 'p', 'm', 'J', 'H', 'h', 'r']));
+    }
     match rng.below(6) {
         0 => {
             // CSI with unimplemented final
